@@ -102,8 +102,7 @@ theorem initGE_accepts_iff (p : BlakeInitGE.P) :
 
 /-- pair (G, E): the constructor returns or raises `ValueError`, nothing else -/
 theorem initGE_total (p : BlakeInitGE.P) : BlakeInitGE.outcome p = .ok ∨ BlakeInitGE.outcome p = .raise "ValueError" := by
-  simp only [BlakeInitGE.outcome]
-  split_ifs <;> simp
+  epv_ok_or_valueError
 
 theorem initGE_raise (p : BlakeInitGE.P) (h : BlakeInitGE.outcome p ≠ .ok) : BlakeInitGE.outcome p = .raise "ValueError" :=
   (initGE_total p).resolve_left h
@@ -165,8 +164,7 @@ theorem initGNu_accepts_iff (p : BlakeInitGNu.P) :
 
 /-- pair (G, ν): the constructor returns or raises `ValueError`, nothing else -/
 theorem initGNu_total (p : BlakeInitGNu.P) : BlakeInitGNu.outcome p = .ok ∨ BlakeInitGNu.outcome p = .raise "ValueError" := by
-  simp only [BlakeInitGNu.outcome]
-  split_ifs <;> simp
+  epv_ok_or_valueError
 
 theorem initGNu_raise (p : BlakeInitGNu.P) (h : BlakeInitGNu.outcome p ≠ .ok) : BlakeInitGNu.outcome p = .raise "ValueError" :=
   (initGNu_total p).resolve_left h
@@ -218,8 +216,7 @@ theorem initGK_accepts_iff (p : BlakeInitGK.P) :
 
 /-- pair (G, K): the constructor returns or raises `ValueError`, nothing else -/
 theorem initGK_total (p : BlakeInitGK.P) : BlakeInitGK.outcome p = .ok ∨ BlakeInitGK.outcome p = .raise "ValueError" := by
-  simp only [BlakeInitGK.outcome]
-  split_ifs <;> simp
+  epv_ok_or_valueError
 
 theorem initGK_raise (p : BlakeInitGK.P) (h : BlakeInitGK.outcome p ≠ .ok) : BlakeInitGK.outcome p = .raise "ValueError" :=
   (initGK_total p).resolve_left h
@@ -298,8 +295,7 @@ theorem initGM_accepts_iff (p : BlakeInitGM.P) :
 
 /-- pair (G, M): the constructor returns or raises `ValueError`, nothing else -/
 theorem initGM_total (p : BlakeInitGM.P) : BlakeInitGM.outcome p = .ok ∨ BlakeInitGM.outcome p = .raise "ValueError" := by
-  simp only [BlakeInitGM.outcome]
-  split_ifs <;> simp
+  epv_ok_or_valueError
 
 theorem initGM_raise (p : BlakeInitGM.P) (h : BlakeInitGM.outcome p ≠ .ok) : BlakeInitGM.outcome p = .raise "ValueError" :=
   (initGM_total p).resolve_left h
@@ -367,8 +363,7 @@ theorem initENu_accepts_iff (p : BlakeInitENu.P) :
 
 /-- pair (E, ν): the constructor returns or raises `ValueError`, nothing else -/
 theorem initENu_total (p : BlakeInitENu.P) : BlakeInitENu.outcome p = .ok ∨ BlakeInitENu.outcome p = .raise "ValueError" := by
-  simp only [BlakeInitENu.outcome]
-  split_ifs <;> simp
+  epv_ok_or_valueError
 
 theorem initENu_raise (p : BlakeInitENu.P) (h : BlakeInitENu.outcome p ≠ .ok) : BlakeInitENu.outcome p = .raise "ValueError" :=
   (initENu_total p).resolve_left h
